@@ -4,7 +4,7 @@ from __future__ import annotations
 import ast
 from typing import List, Optional, Set
 
-from ..an import flows_from_calls, count_on_paths, cut, is_method_call, yields_at
+from ..an import value_alts, flows_from_calls, count_on_paths, cut, is_method_call, yields_at
 from ..cfg import calls_at, node_exprs
 from ..core import Checker
 from ..loader import AnalysisError, Func, norm, walk_expr, walk_own
@@ -61,9 +61,23 @@ def _token_funcs(ck: Checker, fn: Func) -> List[Func]:
     return out
 
 
+def _readers(ck: Checker) -> List[Func]:
+    """State methods that validate a stored row: they compare the stored 'checksum' field."""
+    cls = ck.prog.cls("hashfile.state", "State")
+    out = []
+    for m in cls.methods.values():
+        for x in walk_own(m.node):
+            if isinstance(x, ast.Compare) and any(isinstance(y, ast.Subscript) and isinstance(y.slice, ast.Constant) and y.slice.value == "checksum" for y in walk_expr(x)):
+                out.append(m)
+                break
+    if not out:
+        raise AnalysisError("no State method compares the stored 'checksum' token (reader vanished)")
+    return out
+
+
 def _token(ck: Checker) -> None:
     prog = ck.prog
-    users = [prog.func("hashfile.state", q) for q in ("State.save", "State.save_many", "State._get")]
+    users = [prog.func("hashfile.state", q) for q in ("State.save", "State.save_many")] + _readers(ck)
     toks = {}
     for u in users:
         fs = _token_funcs(ck, u)
@@ -93,69 +107,85 @@ def _token(ck: Checker) -> None:
     # the token is computed on the stat record that belongs to the row's path
     for q in ("State.save", "State.save_many"):
         fn = prog.func("hashfile.state", q)
-        for c, cals in ck.res.calls_in(fn):
-            if any(x.fq in toks for x in cals) and c.args:
-                alts = [norm(a) for a in expand1(prog, fn, c.args[0], levels=2)]
-                ok = any(a in ("info or fs.info(path)", "fs.info(path)", "info") for a in alts)
-                ck.require(ok, "C13.token", fn, c, "token is computed from the stat record of the row's own path", f"token input {alts} is not the stat record of the saved path", construct=f"{q}: {norm(c)}")
+        g = ck.cfg(fn)
+        for n in g.nodes.values():
+            for c in calls_at(n):
+                if any(x.fq in toks for x in ck.res.resolve(fn, c)) and c.args:
+                    alts = [norm(a) for a in value_alts(g, n, c.args[0], depth=3)] + [norm(a) for a in expand1(prog, fn, c.args[0], levels=2)]
+                    ok = any(a in ("info or fs.info(path)", "fs.info(path)", "info") for a in alts)
+                    ck.require(ok, "C13.token", fn, c, "token is computed from the stat record of the row's own path", f"token input {alts} is not the stat record of the saved path", construct=f"{q}: {norm(c)}")
 
 
 def _hit(ck: Checker) -> None:
     prog = ck.prog
-    fn = prog.func("hashfile.state", "State._get")
-    g = ck.cfg(fn)
-    hits = [n for n in g.nodes.values() if n.kind == "stmt" and isinstance(n.ast, ast.Return) and n.ast.value is not None and not (isinstance(n.ast.value, ast.Constant) and n.ast.value.value is None)]
-    ck.floor("C13.hit", len(hits), 1, "hit returns in State._get")
-    tok_calls = [c for c, cals in ck.res.calls_in(fn) if any("tokenize" in " ".join(norm(x) for x in walk_own(cal.node)) for cal in cals if cal.module is fn.module)]
+    readers = _readers(ck)
+    for fn in readers:
+        g = ck.cfg(fn)
+        fd = [c for c in walk_own(fn.node) if isinstance(c, ast.Call) and norm(c.func) == "HashInfo.from_dict"]
+        hits = []
+        for n in g.nodes.values():
+            if n.kind != "stmt" or n.ast is None:
+                continue
+            v = getattr(n.ast, "value", None)
+            if isinstance(n.ast, (ast.Return, ast.Assign)) and isinstance(v, ast.Tuple) and len(v.elts) >= 2 and any(flows_from_calls(g, n, e, fd) for e in v.elts):
+                hits.append(n)
+        ck.floor("C13.hit", len(hits), 1, f"hit values built in {fn.qual}")
+        tok_calls = [c for c, cals in ck.res.calls_in(fn) if any("tokenize" in " ".join(norm(x) for x in walk_own(cal.node)) for cal in cals if cal.module is fn.module)]
 
-    def token_equal(t, lab):
-        e = t.ast
-        if not (t.kind == "test" and isinstance(e, ast.Compare) and len(e.ops) == 1 and isinstance(e.ops[0], (ast.Eq, ast.NotEq))):
-            return False
-        sides = [e.left, e.comparators[0]]
-        stored = any("['checksum']" in norm(s) for s in sides)
-        fresh = any(refers_to_call(fn, s, tok_calls) for s in sides)
-        if not (stored and fresh):
-            return False
-        return (isinstance(e.ops[0], ast.NotEq) and lab == "F") or (isinstance(e.ops[0], ast.Eq) and lab == "T")
+        def token_equal(t, lab, g=g, fn=fn, tok_calls=tok_calls):
+            e = t.ast
+            if not (t.kind == "test" and isinstance(e, ast.Compare) and len(e.ops) == 1 and isinstance(e.ops[0], (ast.Eq, ast.NotEq))):
+                return False
+            sides = [e.left, e.comparators[0]]
+            stored = any("['checksum']" in norm(a) for s_ in sides for a in value_alts(g, t, s_, depth=2))
+            fresh = any(flows_from_calls(g, t, s_, tok_calls) for s_ in sides)
+            if not (stored and fresh):
+                return False
+            return (isinstance(e.ops[0], ast.NotEq) and lab == "F") or (isinstance(e.ops[0], ast.Eq) and lab == "T")
 
-    def version_ok(t, lab):
-        e = t.ast
-        if not (t.kind == "test" and isinstance(e, ast.Compare) and len(e.ops) == 1 and "version" in norm(e.left).lower()):
-            return False
-        op, r = e.ops[0], e.comparators[0]
-        if isinstance(op, ast.Is) and isinstance(r, ast.Constant) and r.value is None:
-            return lab == "T"
-        if isinstance(op, ast.IsNot) and isinstance(r, ast.Constant) and r.value is None:
-            return lab == "F"
-        if "HASH_VERSION" in norm(r):
-            if isinstance(op, ast.Gt):
-                return lab == "F"
-            if isinstance(op, ast.LtE):
+        def version_ok(t, lab, g=g):
+            e = t.ast
+            if not (t.kind == "test" and isinstance(e, ast.Compare) and len(e.ops) == 1):
+                return False
+            left = " ".join(norm(a) for a in value_alts(g, t, e.left, depth=2))
+            if "version" not in left.lower():
+                return False
+            op, r = e.ops[0], e.comparators[0]
+            if isinstance(op, ast.Is) and isinstance(r, ast.Constant) and r.value is None:
                 return lab == "T"
-        return False
+            if isinstance(op, ast.IsNot) and isinstance(r, ast.Constant) and r.value is None:
+                return lab == "F"
+            if "HASH_VERSION" in norm(r):
+                if isinstance(op, ast.Gt):
+                    return lab == "F"
+                if isinstance(op, ast.LtE):
+                    return lab == "T"
+            return False
 
-    for h in hits:
-        w1 = cut(g, [h.id], token_equal)
-        ck.require(w1 is None, "C13.hit", fn, h, "a hit requires stored token == token of the file's current stat record",
-                   "a cached hash can be returned although the stored token was not compared equal to the current one", witness=g.fmt_path(w1) if w1 else None, construct=f"{h.text()} / token")
-        w2 = cut(g, [h.id], version_ok)
-        ck.require(w2 is None, "C13.hit", fn, h, "a hit requires the row's version to be absent (legacy) or not newer than HASH_VERSION",
-                   "a row written by a newer format version can be returned as a hit", witness=g.fmt_path(w2) if w2 else None, construct=f"{h.text()} / version")
+        for h in hits:
+            start = h.loops[-1] if h.loops else None
+            w1 = cut(g, [h.id], token_equal, start=start)
+            ck.require(w1 is None, "C13.hit", fn, h, "a hit requires stored token == token of the file's current stat record",
+                       "a cached hash can be returned although the stored token was not compared equal to the current one", witness=g.fmt_path(w1) if w1 else None, construct=f"{h.text()} / token")
+            w2 = cut(g, [h.id], version_ok, start=start)
+            ck.require(w2 is None, "C13.hit", fn, h, "a hit requires the row's version to be absent (legacy) or not newer than HASH_VERSION",
+                       "a row written by a newer format version can be returned as a hit", witness=g.fmt_path(w2) if w2 else None, construct=f"{h.text()} / version")
+    reader_names = {r.name for r in readers}
     # get(): every non-miss return is the reader's result
     get = prog.func("hashfile.state", "State.get")
     gg = ck.cfg(get)
-    for n in gg.nodes.values():
-        if n.kind == "stmt" and isinstance(n.ast, ast.Return) and n.ast.value is not None:
-            v = n.ast.value
-            miss = isinstance(v, ast.Tuple) and all(isinstance(x, ast.Constant) and x.value is None for x in v.elts)
-            if miss:
-                continue
-            calls = [c for c, _ in ck.res.calls_in(get) if is_method_call(c, "_get")]
-            ck.require(refers_to_call(get, v, calls), "C13.hit", get, n, "State.get returns only what the validating reader returned", f"State.get returns {norm(v)} which is not the validating reader's answer")
+    if get not in readers:
+        for n in gg.nodes.values():
+            if n.kind == "stmt" and isinstance(n.ast, ast.Return) and n.ast.value is not None:
+                v = n.ast.value
+                miss = isinstance(v, ast.Tuple) and all(isinstance(x, ast.Constant) and x.value is None for x in v.elts)
+                if miss:
+                    continue
+                calls = [c for c, _ in ck.res.calls_in(get) if isinstance(c.func, ast.Attribute) and c.func.attr in reader_names]
+                ck.require(flows_from_calls(gg, n, v, calls), "C13.hit", get, n, "State.get returns only what the validating reader returned", f"State.get returns {norm(v)} which is not the validating reader's answer")
     gm = prog.func("hashfile.state", "State.get_many")
     g3 = ck.cfg(gm)
-    loops = [h for h in g3.nodes.values() if h.kind == "for"]
+    loops = [h for h in g3.nodes.values() if h.kind == "for" and len(h.loops) == 1]
     ck.floor("C13.hit", len(loops), 1, "row loop in State.get_many")
     for h in loops:
         lo, hi, wit = count_on_paths(g3, [(h.id, "T")], {h.id, g3.exit, g3.raise_exit}, yields_at)
@@ -171,9 +201,9 @@ def _hit(ck: Checker) -> None:
                         ck.require(first == lv, "C13.hit", gm, x, "each row is keyed by the requested path", f"row is keyed by {first}, not by the requested path")
                         rest = y.value.elts[1:]
                         miss = all(isinstance(r, ast.Constant) and r.value is None for r in rest)
-                        if not miss:
-                            calls = [c for c, _ in ck.res.calls_in(gm) if is_method_call(c, "_get")]
-                            ck.require(all(refers_to_call(gm, r, calls) for r in rest), "C13.hit", gm, x, "non-miss rows carry the validating reader's answer", f"get_many yields {norm(y.value)} not taken from the validating reader")
+                        if not miss and gm not in readers:
+                            calls = [c for c, _ in ck.res.calls_in(gm) if isinstance(c.func, ast.Attribute) and c.func.attr in reader_names]
+                            ck.require(all(flows_from_calls(g3, x, r, calls) for r in rest), "C13.hit", gm, x, "non-miss rows carry the validating reader's answer", f"get_many yields {norm(y.value)} not taken from the validating reader")
 
 
 def _algo(ck: Checker) -> None:
